@@ -80,6 +80,9 @@ pub fn damages(op: usize, text: &str, sites: &[Site], stream: &Stream) -> Vec<(S
                         let new = (p + 1) as usize;
                         if new < *indent {
                             out.push((format!("{}{}{}", &text[..*line_start], " ".repeat(new), &text[*line_start + *indent..]), "between"));
+                            // the same misplaced line with a tab behind its (too short) indentation: the
+                            // tab changes nothing about where the entry sits
+                            out.push((format!("{}{}\t{}", &text[..*line_start], " ".repeat(new), &text[*line_start + *indent..]), "between-then-tab"));
                         }
                     }
                 }
@@ -87,9 +90,20 @@ pub fn damages(op: usize, text: &str, sites: &[Site], stream: &Stream) -> Vec<(S
         }
         5 => {
             for s in sites {
-                if let Site::FlowContLine { line_start, indent, block_n, plain_before } = s {
+                if let Site::FlowContLine { line_start, indent, block_n, plain_before, in_scalar } = s {
                     if *block_n >= 0 {
                         let first = b.get(*line_start + *indent).copied().unwrap_or(b'\n');
+                        if let Some(quoted) = in_scalar {
+                            // the line continues a scalar that sits inside the flow collection
+                            let class: &'static str = match (*quoted, *plain_before) {
+                                (true, false) => "flow-cont:inside-quoted-scalar",
+                                (true, true) => "flow-cont:inside-quoted-scalar:after-plain-scalar",
+                                (false, _) => "flow-cont:inside-plain-scalar",
+                            };
+                            let new = *block_n as usize;
+                            out.push((format!("{}{}{}", &text[..*line_start], " ".repeat(new), &text[*line_start + *indent..]), class));
+                            continue;
+                        }
                         let class: &'static str = match (first, *plain_before) {
                             (b'"' | b'\'', false) => "flow-cont:quoted",
                             (b']' | b'}', false) => "flow-cont:closer",
